@@ -2,6 +2,8 @@
    (Deep copy itself — deep_copy, make_unique_item_name, create_copied_sub_element[_at/_inner] — is in Tree/Ops.v.)
 
      let copy = Self::new();                                              new_model
+     copy.root.attributes = self.root.attributes.clone();                 (fix: commit in /repo: the root of the copy
+     copy.root.comment = self.root.comment.clone();                        carries the original's attributes and comment)
      for orig_file in self.files() {                                      m_files of the original, Vec order
          let new_file = copy.create_file(filename, orig_file.version())?; m_create_file (new file id = |w_files|)
          new_file.xml_standalone = orig_file.xml_standalone;              set_file
@@ -82,9 +84,10 @@ Fixpoint dup_membership (filemap : list (list N * N)) (oids cids : list id) : W 
 Definition m_duplicate_body (m : N) : W N :=
   (do x <- get_model m;
    do c <- new_model T root_attrs;
-   do filemap <- dup_files c (m_files x) [];
    do rn <- get_node (m_root x);
    do cx <- get_model c;
+   modify_node (m_root cx) (fun r => set_comment (set_attrs r (n_attrs rn)) (n_comment rn));;
+   do filemap <- dup_files c (m_files x) [];
    dup_children (m_root cx) (n_content rn);;
    do w <- wget;
    do oids <- dfs_ids (fuel_of w) (m_root x);
